@@ -250,7 +250,7 @@ def man_case(kind, orientation="QSW"):
         raise ValueError(kind)
 
     def pre(v):
-        return [v["tm"] > 0, v["dur"] > 0]
+        return [v["tm"] >= 0, v["dur"] > 0]
 
     def run(env, v):
         prop = mk_prop(env, v["n"], orientation)
@@ -275,7 +275,7 @@ def man_case(kind, orientation="QSW"):
         x = toq(_x0(v))
         d = list(P.T @ env.vec(v["ax"], v["ay"], v["az"]))
         if kind == "impulsive":
-            if t >= tm:
+            if t > tm:                  # the state at the very date of an impulse does not include it
                 x = cw_ref(env, n, tm, x)
                 x = x[:3] + [x[3] + d[0], x[4] + d[1], x[5] + d[2]]
                 x = cw_ref(env, n, t - tm, x)
@@ -319,9 +319,8 @@ def helper_case(kind, orientation, continuous=False):
         T_IN = T_IN + [("dv", "pos"), ("thd", "angle", {"lo": "free"}), ("dur", "timeof", {"angle": "thd", "rate": "n"})]
 
     def pre(v):
-        # maneuvers dated at (or before) the epoch of an orbit belong to its past: same convention as ImpulsiveMan.check,
-        # and the only one under which propagating a propagated orbit does not apply them twice (man_chain/*)
-        p = [v["tm"] > 0, v["te"] >= 0]
+        # a maneuver may be dated at the epoch of the orbit (an impulse takes effect just after its date)
+        p = [v["tm"] >= 0, v["te"] > 0]            # strictly after the last impulse (the state at its very date does not include it)
         if kind.startswith("vbar"):
             p += [v["dur"] > 0]
         return p
@@ -465,7 +464,7 @@ def man_chain_case(kind, direction, orientation="QSW"):
         return [ContinuousMan(mk_date(env, v["tm"]), mk_td(env, v["dur"]), dv=dvec)]
 
     def pre(v):
-        p = [v["tm"] > 0, v["dur"] > 0, v["t1"] >= 0]
+        p = [v["tm"] >= 0, v["dur"] > 0, v["t1"] >= 0]
         return p + ([v["t2"] >= v["t1"]] if direction == "fwd" else [])
 
     def run(env, v):
@@ -497,7 +496,7 @@ def man_chain_case(kind, direction, orientation="QSW"):
         x = toq(_x0(v))
         d = list(P.T @ env.vec(v["ax"], v["ay"], v["az"]))
         if kind == "impulsive":
-            if t >= tm:
+            if t > tm:                  # the state at the very date of an impulse does not include it
                 x = cw_ref(env, n, tm, x)
                 x = x[:3] + [x[3] + d[0], x[4] + d[1], x[5] + d[2]]
                 x = cw_ref(env, n, t - tm, x)
